@@ -289,6 +289,13 @@ func (c *checker) run(cs Case) (res result) {
 			return bad("asymmetric", "%s = %v but Equals(%s) on %s = %v", what, fwd.r, y.name, x.name, rev.r)
 		}
 	case "equals-nil":
+		if k.typ.Kind() == reflect.Interface && y.v != nil && isNilValue(y.v) {
+			// a typed nil pointer inside an interface parameter: the interface value itself is not
+			// nil in Go, the pointer in it is; "two nils are equal" does not say which counts
+			c.evalTwice(func() arg.Expr { return arg.Equals(nil) }, y)
+			res.judged = false
+			return
+		}
 		want := y.v == nil || isNilValue(y.v)
 		a := c.evalTwice(func() arg.Expr { return arg.Equals(nil) }, y)
 		res.accepted = a.fail == "" && a.r
